@@ -209,7 +209,10 @@ func (r *subreader) readLine(
 			continue
 		}
 		oneline = strings.TrimSuffix(oneline, "\n")
-		if err == io.EOF && line != "" {
+		if err == io.EOF && line != "" && oneline == "" {
+			// The previous line asked for a continuation and nothing
+			// follows. (A last line without a final newline character
+			// continues the clause like any other line.)
 			return "", pos{}, true, false, startPos.wrapErr(errors.New("EOF encountered while expecting line continuation"))
 		}
 		line += oneline
